@@ -58,7 +58,7 @@ def main():
             print(err); return 2
         meta["repo_head"] = sh(["git", "-C", "/repo", "rev-parse", "--short", "HEAD"])[1].strip()
         install_ext(wt)
-        env = dict(os.environ, PYTHONPATH="", MPLBACKEND="Agg")
+        env = dict(os.environ, PYTHONPATH=wt, MPLBACKEND="Agg")
         rc0, o0, e0 = sh([PY, demo], cwd=wt, env=env, timeout=1800)
         meta["demo_pristine_exit"] = rc0
         print("demo on pristine tree: exit %d" % rc0)
